@@ -32,11 +32,20 @@ fn build_from_parsed(
     parsed: ParseResult,
     common_context: &CommonContext,
 ) -> Result<BuildResult, Error> {
+    #[cfg(feature = "verif-hooks")]
+    crate::verif_hooks::point("build.pass0");
     let passed_0 = pass0(parsed, common_context)?;
 
+    #[cfg(feature = "verif-hooks")]
+    crate::verif_hooks::point("build.pass1");
     let passed_1 = pass1(passed_0, common_context)?;
 
+    #[cfg(feature = "verif-hooks")]
+    crate::verif_hooks::point("build.pass2");
     let passed_2 = pass2(passed_1, common_context)?;
+
+    #[cfg(feature = "verif-hooks")]
+    crate::verif_hooks::point("build.finish");
 
     let device = common_context.get_device();
 
@@ -73,6 +82,8 @@ fn build_from_parsed(
 }
 
 pub fn build_str(source: &str) -> Result<BuildResult, Error> {
+    #[cfg(feature = "verif-hooks")]
+    crate::verif_hooks::point("build.start");
     let common_context = CommonContext::new();
 
     let parsed = parse_str(source, &common_context)?;
@@ -81,6 +92,8 @@ pub fn build_str(source: &str) -> Result<BuildResult, Error> {
 }
 
 pub fn build_file(path: PathBuf, paths: Paths) -> Result<BuildResult, Error> {
+    #[cfg(feature = "verif-hooks")]
+    crate::verif_hooks::point("build.start");
     let common_context = CommonContext::new();
 
     let parsed = parse_file(path, paths, &common_context)?;
